@@ -109,3 +109,21 @@ Proof.
   - intros y J y' Hy EF EY. destruct (Hpos y J Hy EF) as [A B]. exact (comp_of_fluxes_interior J y' A B EY).
   - exact Hy0.
 Qed.
+
+(* in vacuum mode the forward-permeation hypothesis of [solve_swap] follows from positive feed partial pressures *)
+Corollary solve_swap_vacuum spec (m : Mixture ROps) perm perm' (a : SolveArgs ROps) P1 P2 :
+  sa_P1 a = Some P1 -> sa_P2 a = Some P2 -> sa_Tp a = None -> sa_pp a = None ->
+  sym_model spec (sa_ct a) -> vp_defined m (sa_T a) ->
+  0 < mw (c1 m) -> 0 < mw (c2 m) -> interior (sa_x a) -> 0 < pval P1 -> 0 < pval P2 ->
+  (forall pf, partial_pressures_gen ROps spec (sa_T a) m (sa_x a) (sa_ct a) = Ok pf -> 0 < fst pf /\ 0 < snd pf) ->
+  solve_gen ROps spec false (swap_mixture m) perm' (swap_sargs a) = swap_res (solve_gen ROps spec false m perm a).
+Proof.
+  intros E1 E2 ET Ep Hs Hv HM1 HM2 Hx HP1 HP2 Hpf.
+  apply (solve_swap spec m perm perm' a P1 P2); try assumption.
+  - intros tp H. rewrite ET in H. discriminate.
+  - intros y J _. unfold fluxes_from_permeate_gen, mk_flux_args, permeate_pressures_gen.
+    cbn [fa_T fa_x fa_ct fa_Tp fa_pp fa_P1 fa_P2 fst snd]. rewrite ET, Ep.
+    destruct (partial_pressures_gen ROps spec (sa_T a) m (sa_x a) (sa_ct a)) as [pf|] eqn:E; [|discriminate].
+    cbn [bind]. intros H; injection H as <-. cbn [fst snd]. destruct (Hpf pf eq_refl) as [A B]. rnum.
+    split; apply Rmult_lt_0_compat; lra.
+Qed.
